@@ -23,6 +23,7 @@ OWN = {
     "C05": ("C05_",),
     "C06": ("C06_",),
     "C04": ("C04_",),
+    "C03": ("C03_",),
     "C19": ("C19_",),
 }
 
@@ -35,7 +36,21 @@ def relay_universe():
         E("x1", "B", 20000, 40, [["t", "a"]]),
         E("r1", "A", 10000, 15, [["t", "b"]]),
         E("r2", "A", 10000, 25, [["t", "b"]]),
+        E("fx", "B", 1, 35, [["t", "a"]], mutate=_wrong_id),      # signed correctly, id field is not the hash
+        E("fs", "A", 1, 36, [["t", "a"]], mutate=_bad_sig),
     ]
+
+
+def _wrong_id(ev, uni):
+    ev = dict(ev)
+    ev["id"] = "%064x" % (int(ev["id"], 16) ^ 0xFFFF)
+    return ev
+
+
+def _bad_sig(ev, uni):
+    ev = dict(ev)
+    ev["sig"] = ev["sig"][:-2] + ("00" if ev["sig"][-2:] != "00" else "01")
+    return ev
 
 
 FILTER_LISTS = [
@@ -148,6 +163,7 @@ _RULE = {
     "C05": "a fan-out created at least one notify task",
     "C06": "an EVENT was answered",
     "C04": "at least three frames were sent",
+    "C03": "a forged event was submitted over the websocket path",
     "C19": "a connection ended",
 }
 
@@ -173,6 +189,8 @@ def _nontrivial(prop, tr):
         return any(ln["a"] == "Send" and ln["f"]["t"] == "OK" for ln in tr)
     if prop == "C04":
         return sum(1 for ln in tr if ln["a"] == "Send") >= 3
+    if prop == "C03":
+        return any(ln["a"] == "Submit" and ln["e"] in ("fx", "fs") for ln in tr)
     return any(ln["a"] == "Drop" for ln in tr)
 
 
